@@ -25,7 +25,13 @@ EXTRA_TARGETS = MODEL_TARGETS
 BLOCK_OPENERS = ['set "light_1" begin\n stage row 0 column 0\n', 'repeat 3 begin\n hue 5\n', 'define f with a b begin\n hue a\n',
                  'repeat with i from 1 to 3 begin\n repeat 2 begin\n', 'define g begin\n repeat 2 begin\n', 'if {1 < 2} begin\n',
                  'set "light_1" begin\n repeat 2 begin\n', 'repeat all as x begin\n set x\n', 'define m 5\nassign x 3\nunits raw\n',
-                 'define f begin print 1 end\ndefine g with z begin\n']
+                 'define f begin print 1 end\ndefine g with z begin\n',
+                 # rejected in a header, between a keyword and its block, inside brackets / braces, after a complete definition
+                 'define f with a a begin\n hue 1\n end\n', 'define f with a b\n', 'define f with hue begin\n', 'define 5 begin\n', 'repeat with i from 1 begin\n hue i\n end\n',
+                 'repeat in "a" and begin\n', 'repeat all as begin\n', 'set "light_1" zone begin\n', 'if {1 < } begin\n', 'define f with a begin return {a + } end\n',
+                 'define f with a begin hue a end\nhue [f 1 2]\n', 'define f with a begin hue a end\n[f\n', 'assign x {(1 + 2}\n', 'repeat 2 begin\n break break\n define\n',
+                 'set "light_1" begin\n stage row 0 column\n', 'set "light_1" begin\n define q 5\n', 'units\n', 'time at 8:00 or\n', 'define m 5 define m 6\n',
+                 'repeat begin\n if {1} begin\n break\n', 'define f begin\n repeat 2 begin\n return\n', 'printf "{} {}" 1\n', 'get\n', 'wait wait wait on\n']
 
 
 def truncated(rng, text):
@@ -55,7 +61,7 @@ def gen_text(rng):
     if r < 0.5:
         return 'truncated', truncated(rng, t)
     if r < 0.7:
-        return 'open-block', rng.choice(BLOCK_OPENERS) + (truncated(rng, t) if rng.random() < 0.5 else '')
+        return 'open-block', (t + '\n' if rng.random() < 0.25 else '') + rng.choice(BLOCK_OPENERS) + (truncated(rng, t) if rng.random() < 0.5 else '')
     if r < 0.85:
         return 'mutation', c06.mutate(rng, t)
     return 'soup', c06.prefixed_soup(rng)
@@ -214,7 +220,9 @@ def run_histories(ctx, n_jobs):
         g2 = gen_prog.Gen(rng, world, opts)
         text_b = g2.gen_script(rng.randint(1, 5))[0]
         if rng.random() < 0.5:
-            text = rng.choice(['units raw\n', 'print 7 print 8\n', 'assign zz 5\n', 'hue 123 duration 4 time 2\n', 'define kk 9\n', '']) + text
+            text = rng.choice(['units raw\n', 'print 7 print 8\n', 'assign zz 5\n', 'hue 123 duration 4 time 2\n', 'define kk 9\n', '',
+                               'define kk 9\nprintf "{kk} {} " kk\n', 'define kk "light_1"\nassign zz kk\nprintf "{zz} {kk} " \n',
+                               'assign zz 5\nprintf "{zz} {} {hue} " zz\nhue 77\n', 'define k1 1 define k2 {k1 + 1}\nprint k2\n']) + text
         r = JobRunner(world)
         try:
             job = r.new_job(text)
@@ -231,8 +239,11 @@ def run_histories(ctx, n_jobs):
                     k = rng.randint(1, n1)
                     st, t, n = r.run(job, stop_at=k)
                     kinds.append('stopped@%d/%d' % (k, n1))
-                    pre = [e for e in t if e != 'FL']
-                    if t[:len(pre)] != t1[:len(pre)] and st == 'STOPPED':
+                    # device commands and delays of the stopped run are a prefix of those of the first run
+                    # (pending output is flushed differently when a run is cut short, which is not a difference of the run)
+                    dev = lambda evs: [e for e in evs if e[:2] in ('C|', 'P|', 'AC', 'AP', 'Z|', 'M|', 'G|', 'W|', 'U|')]
+                    pre = dev(t)
+                    if pre != dev(t1)[:len(pre)] and st == 'STOPPED':
                         ctx.counterexample('C17/stopped-rerun-differs', 'a re-run of the same job, stopped after %d instructions, already differs from the first run' % k,
                                            {'text': text, 'world': world, 'first': t1[:40], 'rerun': t[:40]})
                 st2, t2, n2 = r.run(job)
@@ -288,12 +299,12 @@ def run(ctx):
                 'request has at least one predecessor; distinct = distinct (history, request)')
     ctx.assumptions += ['the devices are put back into their initial state before every run, since `get` reads them',
                         'stopping a run is modelled and exercised as Machine.stop() taking effect between two instructions']
-    sample = compile_histories(ctx, 600 if ctx.thorough() else 70)
+    sample = compile_histories(ctx, 4000 if ctx.thorough() else 70)
     ctx.stage('compile-histories')
     if ctx.model_runnable:
         model_compile(ctx, sample if ctx.thorough() else sample[:160])
     ctx.stage('model')
-    run_histories(ctx, 400 if ctx.thorough() else 60)
+    run_histories(ctx, 3000 if ctx.thorough() else 60)
     ctx.stage('run-histories')
 
 
